@@ -535,7 +535,8 @@ func (e *EvalEnv) arith(op token.Token, a, b TV) (Val, error) {
 			var err error
 			eq, err = e.X.deepEq(a.Typ, a.T, b.T)
 			if err != nil {
-				return nil, err
+				// in contracts, == on values containing slices means identical headers (same storage, offset, length)
+				eq = Eq(a.T, b.T)
 			}
 		default:
 			eq = Eq(a.T, b.T)
